@@ -1016,7 +1016,7 @@ def finding_key(case, res):
 
 
 MANIFEST = {
-    "text": ("Proof: 79 Lean theorems about the executable model of graph.py characterise, for every well-formed mixed graph and "
+    "text": ("Proof: 91 Lean theorems about the executable model of graph.py characterise, for every well-formed mixed graph and "
              "every node subset: node set, directed and bidirected edge sets of subgraph / remove_in_edges / remove_out_edges / "
              "remove_nodes_from / intervene / moralize / disorient; ancestors and descendants as reflexive-transitive closures; "
              "districts as the partition by bidirected connectivity (get_district total exactly on nodes); Markov pillow and "
